@@ -54,8 +54,12 @@ pub fn parse_from_path<T: AsRef<Path>>(path: T) -> Result<CtehexmlData, Error> {
 
 /// Carga archivo .ctehexml y extiende con BBDD por defecto de HULC
 pub fn parse_with_catalog(data: &str) -> Result<CtehexmlData, Error> {
+    #[cfg(cteenergymodel_verif)]
+    crate::verif_hooks::point("parse:catalog:before");
     // Carga datos del .ctehexml
     let mut ctehexmldata = parse(data)?;
+    #[cfg(cteenergymodel_verif)]
+    crate::verif_hooks::point("parse:catalog:load");
     let mut db = ctehexmldata.bdldata.db;
     // Carga datos del catálogo comprimido
     let catdb = load_lider_catalog()?;
@@ -70,6 +74,8 @@ pub fn parse_with_catalog(data: &str) -> Result<CtehexmlData, Error> {
 
 /// Carga datos del catálogo comprimido de LIDER
 pub fn load_lider_catalog() -> Result<crate::bdl::DB, Error> {
+    #[cfg(cteenergymodel_verif)]
+    crate::verif_hooks::point("parse:catalog:entry");
     let mut gz = GzDecoder::new(LIDERCATSTRZ);
     let mut dbstring = String::new();
     gz.read_to_string(&mut dbstring)?;
@@ -79,7 +85,11 @@ pub fn load_lider_catalog() -> Result<crate::bdl::DB, Error> {
 /// Lee estructura de datos desde cadena con formato de archivo .ctehexml
 pub fn parse(data: &str) -> Result<CtehexmlData, Error> {
     // Localiza datos en XML
+    #[cfg(cteenergymodel_verif)]
+    crate::verif_hooks::point("parse:xml:entry");
     let doc = roxmltree::Document::parse(data)?;
+    #[cfg(cteenergymodel_verif)]
+    crate::verif_hooks::point("parse:xml:doc");
 
     // Datos generales
     let datos_generales = parse_datos_generales(&doc)?;
@@ -94,6 +104,8 @@ pub fn parse(data: &str) -> Result<CtehexmlData, Error> {
         .to_string();
     let bdldata = Data::new(&entrada_grafica_lider)?;
 
+    #[cfg(cteenergymodel_verif)]
+    crate::verif_hooks::point("parse:xml:systems");
     let (factores_correccion_sistemas, sistemas) = parse_systems(&doc)?;
 
     Ok(CtehexmlData {
